@@ -387,6 +387,8 @@ def replay(ctx, case):
     ctx.case(None, True)
     if case["kind"] == "blocked":
         return blocked_case(ctx, case)
+    if case["kind"] == "malformed-blocked":
+        return malformed_blocked_case(ctx, case)
     if case["kind"] == "fuzz":
         from vlib import fuzz_h3
 
@@ -508,6 +510,63 @@ def blocked_task(ctx, examples, shard):
     run_hypothesis(ctx, body, strat, examples, shard=shard)
 
 
+def malformed_blocked_case(ctx, case):
+    """A HEADERS / PUSH_PROMISE frame whose field section needs dynamic-table entries that have not arrived yet (the stream blocks) and whose field lines
+    are arbitrary bytes; then the encoder stream delivers the entries (possibly damaged) and the blocked section is decoded for real."""
+    from aioquic.h3.connection import H3Connection
+    from aioquic.quic.events import StreamDataReceived
+    from vlib import h3bench as B
+    from vlib.harness import exc_signature
+
+    is_client = case["role"] == "client"
+    q = B.StubQuic(is_client)
+    h3 = H3Connection(q, enable_webtransport=True)
+    if is_client:
+        h3.send_headers(q.get_next_available_stream_id(), [(b":method", b"GET"), (b":scheme", b"https"), (b":authority", b"a"), (b":path", b"/")], end_stream=True)
+    base = [(b":status", b"200")] if is_client else [(b":method", b"GET"), (b":scheme", b"https"), (b":authority", b"a"), (b":path", b"/")]
+    entries = (base + [(b"x-%d" % i, b"v") for i in range(8)])[: case["inserts"]]
+    enc, fs = B.qpack_dynamic(entries)
+    lines = fs[2:] if case["lines"] is None else bytes(case["lines"])
+    prefix = fs[:2] if case["prefix"] is None else bytes(case["prefix"])
+    section = prefix + lines
+    ftype = 5 if (case["push_promise"] and is_client) else 1
+    frame = B.frame(ftype, (B.varint(0) if ftype == 5 else b"") + section)
+    enc = enc[: len(enc) - case["enc_cut"]] if case["enc_cut"] else enc
+    uni = 7 if is_client else 6
+    plan = [(0, frame, case["fin"]), (uni, b"\x02" + enc, False)]
+    if case["enc_first"]:
+        plan.reverse()
+    was_blocked = False
+    for sid, chunk, fin in plan:
+        try:
+            h3.handle_event(StreamDataReceived(stream_id=sid, data=chunk, end_stream=fin))
+        except Exception as e:  # noqa
+            ctx.violation(exc_signature(e, "h3-raised-"), "H3Connection.handle_event raised %r on stream %d (%s; field section %s after %d dynamic-table inserts%s)" % (e, sid, case["role"], section.hex()[:60], case["inserts"], ", blocked until the encoder stream arrived" if was_blocked else ""), dict(case, kind="malformed-blocked"))
+            return
+        was_blocked = was_blocked or any(getattr(st_, "blocked", False) for st_ in getattr(h3, "_stream", {}).values())
+    ctx.case(("mblocked", repr(case)), nontrivial=was_blocked, classes=["malformed-blocked:" + ("blocked" if was_blocked else "not-blocked"), "malformed-blocked:" + ("closed-0x%x" % q.closed[0] if q.closed else "open")])
+
+
+def malformed_blocked_task(ctx, examples, shard):
+    from hypothesis import strategies as st
+    from vlib.harness import run_hypothesis
+
+    lines = st.one_of(
+        st.none(),
+        st.binary(min_size=0, max_size=12),
+        st.lists(st.sampled_from([0x80, 0x81, 0x87, 0xBF, 0xC0, 0xD9, 0x11, 0x10, 0x40, 0x4F, 0x50, 0x20, 0x27, 0x00, 0x01, 0x7F, 0xFF]), min_size=1, max_size=8).map(bytes),
+    )
+    prefix = st.one_of(st.none(), st.none(), st.tuples(st.integers(1, 12), st.sampled_from([0x00, 0x01, 0x80, 0x81, 0x7F])).map(bytes))
+    strat = st.fixed_dictionaries({"role": st.sampled_from(["client", "server"]), "inserts": st.integers(1, 6), "lines": lines, "prefix": prefix, "push_promise": st.booleans(), "fin": st.booleans(), "enc_cut": st.sampled_from([0, 0, 0, 1, 3]), "enc_first": st.sampled_from([False, False, False, True])})
+
+    def body(ctx, case):
+        malformed_blocked_case(ctx, case)
+        if ctx.want_sample():
+            ctx.sample(dict(case, kind="malformed-blocked"))
+
+    run_hypothesis(ctx, body, strat, examples, shard=shard)
+
+
 def fuzz_task(ctx, runs, seconds, shard):
     """coverage-guided byte-level fuzzing of H3Connection.handle_event (atheris / libFuzzer, vlib/fuzz_h3.py)"""
     import glob
@@ -579,6 +638,8 @@ def plan(tier, seed):
         t.append(("close-lengths-%d" % p, {"fn": "closelen", "part": p, "nparts": 4}))
     for s in range(2):
         t.append(("blocked-streams-%d" % s, {"fn": "blocked", "examples": 400 if tier == "quick" else 20000, "shard": s}))
+    for s in range(2):
+        t.append(("malformed-blocked-%d" % s, {"fn": "mblocked", "examples": 600 if tier == "quick" else 30000, "shard": s}))
     n = 12 if tier == "quick" else 14
     ex = 500 if tier == "quick" else 25000
     for s in range(n):
@@ -595,6 +656,8 @@ def run_task(ctx, name, fn, **kw):
         close_lengths(ctx, kw["part"], kw["nparts"])
     elif fn == "blocked":
         blocked_task(ctx, kw["examples"], kw["shard"])
+    elif fn == "mblocked":
+        malformed_blocked_task(ctx, kw["examples"], kw["shard"])
     elif fn == "h3":
         h3_cases(ctx, kw["examples"], kw["shard"])
     else:
